@@ -3,7 +3,7 @@
    Model: Model/C17Loop.v (loop IR, trace semantics, one function per rewrite pattern).
    Every theorem quantifies over all bounds / steps / loop bodies / environments (values of the free
    names, i.e. function arguments and everything computed before the rewritten op). *)
-From Snax Require Import Base.Prelude Model.C17Loop Proofs.C17LoopProofs Proofs.C17ContextProofs.
+From Snax Require Import Base.Prelude Model.C17Loop Proofs.C17LoopProofs Proofs.C17ContextProofs Proofs.C17WfProofs.
 
 (* ChangeForStep (after the repair of F14): same events, same operands, same order; the environment seen
    by the rest of the block differs only on the fresh names introduced by the rewrite. *)
@@ -77,6 +77,16 @@ Theorem C17_rewrite_seq_trace : forall steps args b b' e,
   trace b' e = trace b e.
 Proof. exact rewrite_seq_trace. Qed.
 Print Assumptions C17_rewrite_seq_trace.
+
+(* The rewrites preserve well-formedness, hence: ANY finite sequence of rule applications (any rules, any
+   positions, any order - independent of the greedy driver) starting from a well-formed SSA program
+   preserves the trace from every environment.  No condition on the intermediate programs. *)
+Theorem C17_rewrite_seq_in_trace : forall steps args b b',
+  wf_prog args b = true ->
+  rewrite_seq_in args steps b = Some b' ->
+  (forall e, trace b' e = trace b e) /\ wf_prog args b' = true.
+Proof. exact rewrite_seq_in_trace. Qed.
+Print Assumptions C17_rewrite_seq_in_trace.
 
 (* MoveMemrefDims: outside the affine.min case the replacement has the value of the dim it replaces,
    on every iteration. *)
